@@ -393,7 +393,9 @@ type Step struct {
 var WriterKinds = []string{"fw", "sw", "func", "http", "bytesbuf", "builder", "bufio16", "bufio4096", "bufio8192"}
 
 // FaultCapable reports whether a sequence writer kind can be given a fault.
-func FaultCapable(kind string) bool { return kind == "fw" || kind == "sw" || kind == "func" || kind == "http" }
+func FaultCapable(kind string) bool {
+	return kind == "fw" || kind == "sw" || kind == "func" || kind == "http"
+}
 
 // Hash is the driver's stream hash (FNV-1a 64, hex).
 func Hash(b []byte) string {
